@@ -1,5 +1,6 @@
 SPECIFICATION MCSpec
-CONSTANTS MaxLen = 4
+CONSTANTS FirstSyms = {185, 191, 192, 193, 194}
+          MaxLen = 4
           FillBelow = 3
 INVARIANTS Canonical Agreement Helpers Emit
 CHECK_DEADLOCK FALSE
